@@ -44,6 +44,96 @@ def scratch(prop, n, tag):
     return d, how
 
 
+NPROC = int(os.environ.get("SEEDRUN_NPROC", "8"))
+COVDB = "/tmp/cov/all"
+
+
+def select_tests(patch):
+    """Tests that execute any function touched by the patch, from the per-test line coverage of
+    HEAD (coverage.py, dynamic_context=test_function, recorded once in /tmp/cov).  None = run all
+    (no coverage data, or the patch touches module / class level code)."""
+    import ast
+    import re
+    import sqlite3
+
+    if not os.path.exists(COVDB):
+        return None
+    # pre-image line numbers touched per file
+    touched, cur, old_ln = {}, None, 0
+    for line in open(patch):
+        if line.startswith("--- a/"):
+            cur = line[6:].strip()
+        elif line.startswith("--- "):
+            cur = None
+        elif line.startswith("@@") and cur:
+            old_ln = int(re.match(r"@@ -(\d+)", line).group(1))
+            prev_ctx = old_ln
+        elif cur and line.startswith("-") and not line.startswith("---"):
+            touched.setdefault(cur, set()).add(old_ln)
+            old_ln += 1
+        elif cur and line.startswith("+") and not line.startswith("+++"):
+            touched.setdefault(cur, set()).update({max(1, old_ln - 1), old_ln})  # insertion point: both neighbours
+        elif cur and line.startswith(" "):
+            old_ln += 1
+    if not touched:
+        return None
+    db = sqlite3.connect(COVDB)
+    ctx_name = dict(db.execute("select id, context from context"))
+    files = {p: i for i, p in db.execute("select id, path from file")}
+    sel_ctx, funcs = set(), []
+    for rel, lines in touched.items():
+        if not rel.startswith("cirkit/"):
+            continue
+        src = open(os.path.join(REPO, rel)).read()
+        nlines = src.count("\n") + 1
+        spans = []
+
+        def visit(node, depth):
+            for ch in ast.iter_child_nodes(node):
+                if isinstance(ch, (ast.FunctionDef, ast.AsyncFunctionDef)):
+                    first = min([ch.lineno] + [dd.lineno for dd in ch.decorator_list])
+                    spans.append((first, ch.end_lineno, ch.name, ch.body[0].lineno))  # outermost functions only
+                elif isinstance(ch, ast.ClassDef):
+                    visit(ch, depth + 1)
+
+        visit(ast.parse(src), 0)
+        fid = next((i for p, i in files.items() if p.endswith("/" + rel)), None)
+        for ln in lines:
+            if ln > nlines:
+                ln = nlines
+            sp = next(((a, b, nm, bs) for a, b, nm, bs in spans if a <= ln <= b), None)
+            if sp is None:
+                # blank / comment lines between definitions do not execute; anything else is
+                # module or class level code: run everything
+                text = src.splitlines()[ln - 1].strip() if ln - 1 < len(src.splitlines()) else ""
+                if text == "" or text.startswith("#"):
+                    continue
+                return None
+            funcs.append(f"{rel}:{sp[2]}")
+            if fid is None:
+                continue
+            for ctx_id, bits in db.execute("select context_id, numbits from line_bits where file_id = ?", (fid,)):
+                got = [8 * bi + k for bi, byte in enumerate(bits) for k in range(8) if byte & (1 << k)]
+                if any(sp[3] <= g <= sp[1] for g in got):  # body lines only: decorators / signature run at import
+                    if not ctx_name.get(ctx_id):
+                        return None  # the body runs outside any test function (import time, fixtures): run everything
+                    sel_ctx.add(ctx_name[ctx_id])
+    all_ids = [l.strip() for l in open("/tmp/cov/ids.txt") if l.strip()]
+    pref = set()
+    for c in sel_ctx:
+        c = c.split("|")[0]
+        parts = c.split(".")
+        # tests.backend.torch.test_x.test_fn (optionally Class.test_fn)
+        for cut in (1, 2):
+            mod, fn = parts[:-cut], parts[-cut:]
+            path = "/".join(mod) + ".py"
+            if os.path.exists(os.path.join(REPO, path)):
+                pref.add(path + "::" + "::".join(fn))
+                break
+    ids = [i for i in all_ids if any(i == p or i.startswith(p + "[") for p in pref)]
+    return ids, len(all_ids), sorted(set(funcs))
+
+
 def drop(d):
     sh(f"git -C {REPO} worktree remove --force {d}")
 
@@ -75,8 +165,20 @@ def main():
             record({"cmd": cmd, "prop": prop, "n": n, "applied": False, "note": how})
             return
         t0 = time.time()
-        r = subprocess.run(f"cd {d} && PYTHONPATH={d} /venv/bin/python -m pytest -q -p no:cacheprovider -n 8 --timeout=900 tests 2>&1 | tail -5", shell=True, capture_output=True, text=True, env=ENV)
-        record({"cmd": cmd, "prop": prop, "n": n, "applied": how, "tail": r.stdout[-400:], "wall": round(time.time() - t0)})
+        sel = None if "--full" in rest else select_tests(f"/tmp/wt-{prop}/_out/patch{n}.diff")
+        if sel is None:
+            target, mode = "tests", "full suite"
+        else:
+            ids, total, funcs = sel
+            mode = f"{len(ids)} of {total} tests: every test that executes a changed function ({', '.join(funcs)[:300]}) according to per-test line coverage of HEAD"
+            if not ids:
+                record({"cmd": cmd, "prop": prop, "n": n, "applied": how, "tail": "0 selected: no existing test executes the changed functions; 0 failed, 0 passed", "mode": mode, "wall": 0, "selected": 0})
+                drop(d)
+                return
+            open(f"{d}/_sel.txt", "w").write("\n".join(ids) + "\n")
+            target = "@_sel.txt"
+        r = subprocess.run(f"cd {d} && PYTHONPATH={d} /venv/bin/python -m pytest -q -p no:cacheprovider -n {NPROC} --timeout=1800 {target} 2>&1 | tail -5", shell=True, capture_output=True, text=True, env=ENV)
+        record({"cmd": cmd, "prop": prop, "n": n, "applied": how, "tail": r.stdout[-400:], "mode": mode, "selected": None if sel is None else len(sel[0]), "wall": round(time.time() - t0)})
         drop(d)
     elif cmd == "check":
         tier = "quick"
